@@ -50,6 +50,11 @@ def run(ctx, pid):
         # (a stratum of the property itself, not a growth module: what it cannot run makes the check exit 2)
         from props import contract_stratum
         cstratum = contract_stratum.run(ctx, pid, quick)
+    growth = None
+    if pid == "C05":
+        # growth module: the identity lifecycle (Lifecycle.tla: status x period x transaction type x delegation / stake / penalty
+        # situation, edge cover realised on real chains, also judged by the ledger / registry / replica clause sets)
+        growth = vlib.run_extra(ctx, "extra_life", quick)
     rows = vlib.read_ndjson(trace)
     blocks = [x for x in rows if x.get("ev") == "Block" and not x.get("refused")]
     crafted = [x for x in rows if x.get("ev") == "Crafted"]
@@ -83,7 +88,7 @@ def run(ctx, pid):
            "traces_validated_against_impl": stats.get("histories", 0),
            "blocks": len(blocks), "txs_included": included, "single_tx_blocks": single, "epoch_finishing_blocks": epochs,
            "replay_attempts_crafted": len(crafted), "crafted_by_kind": dict(collections.Counter(x.get("what") for x in crafted)),
-           "relationship_scenarios": rel_stats, "contract_stratum": cstratum,
+           "relationship_scenarios": rel_stats, "contract_stratum": cstratum, "identity_lifecycle": growth,
            "tx_types_included": sorted({t["type"] for x in blocks for t in (x.get("txs") or [])}),
            "samples": [{k: blocks[len(blocks) // 3].get(k) for k in ("h", "kind", "flags", "proposer", "txs", "epochLen")}],
            "rule": "seeded random histories on real chains (all plain tx types, targets in every relationship to the signer, amounts on the "
